@@ -72,7 +72,7 @@ type chanState struct {
 func (ex *Exec) schedWanted(fn *ssa.Function) bool { return true }
 
 func (ex *Exec) runScheduled(fn *ssa.Function) {
-	s := &Sched{yieldCh: make(chan yieldMsg), bound: ex.defaultSchedBound(), freeBound: ex.tier}
+	s := &Sched{yieldCh: make(chan yieldMsg), bound: ex.defaultSchedBound(), freeBound: 0}
 	ex.sched = s
 	main := ex.newGoR("main")
 	go ex.gorBody(main, func() { ex.callFunction(fn, nil, nil, nil, token.NoPos) })
@@ -225,12 +225,10 @@ func (ex *Exec) runScheduled(fn *ssa.Function) {
 	}
 }
 
-func (ex *Exec) defaultSchedBound() int {
-	if ex.tier > 0 {
-		return 2
-	}
-	return 1
-}
+// defaultSchedBound: one preemption (in its short and long flavour) at every synchronisation point. Two preemptions
+// square the number of schedules (measured: > 400 000 paths in 45 min for the larger ATP entries), so the harnesses of
+// the small sessions opt into verifSchedBound(2) in the thorough tier themselves.
+func (ex *Exec) defaultSchedBound() int { return 1 }
 
 func (ex *Exec) newGoR(name string) *GoR {
 	g := &GoR{id: len(ex.sched.gs), resume: make(chan struct{}), name: fmt.Sprintf("g%d(%s)", len(ex.sched.gs), name)}
